@@ -331,7 +331,19 @@ type child struct {
 	dir             string
 }
 
-func startChild(scratch string, pool, ht int) (*child, error) {
+// startChild: the ports are picked with FreePort and bound by the child a moment later; another process
+// of this machine may take one in between, then the start is repeated with new ports
+func startChild(scratch string, pool, ht int) (c *child, err error) {
+	for attempt := 0; attempt < 4; attempt++ {
+		c, err = startChildOnce(scratch, pool, ht)
+		if err == nil || !strings.Contains(err.Error(), "address already in use") {
+			return c, err
+		}
+	}
+	return c, err
+}
+
+func startChildOnce(scratch string, pool, ht int) (*child, error) {
 	self, err := os.Executable()
 	if err != nil {
 		return nil, err
@@ -549,7 +561,7 @@ func (t *tcase) twoWay() bool { return t.op.Req.PType == 0 }
 // every report)
 func (t *tcase) rop() caseOp {
 	op := t.op
-	if op.Seg != nil && len(op.Req.Buf) > 8192 {
+	if op.Seg != nil && len(op.Req.Buf) > 1024 {
 		op.Req.Buf = fmt.Sprintf("(%d bytes, regenerated on replay)", len(op.Req.Buf)/2)
 	}
 	return op
@@ -819,7 +831,8 @@ func (g *gen) pause() int {
 func (g *gen) smallReq(gr *group, ep, pool, ht int, ref *segRef) *tcase {
 	fn := g.fastFunc()
 	scenario, timeout := "plain", g.timeout()
-	if ht == 0 && g.rng.Intn(7) == 0 && !strings.HasPrefix(fn, "sleep:") {
+	// (not tars_ping: whether a request expired is read off the dispatcher's record, and a ping never gets there)
+	if ht == 0 && g.rng.Intn(7) == 0 && !strings.HasPrefix(fn, "sleep:") && fn != "tars_ping" {
 		scenario, timeout = "edge", 1
 	}
 	t := gr.add(ep, pool, ht, scenario, g.request(fn, g.ptype(), timeout))
@@ -1664,7 +1677,9 @@ func main() {
 	}
 	res.Rule = "real TarsGo applications in child processes for {pool 0, pool N} x {handletimeout 0, 300 ms}, TCP and UDP adapters, counting test dispatcher; " +
 		"raw pipelined clients send hand-built RequestPackets (versions TARS/TUP/JSON/other, two-way/one-way, ids incl. 0, negative, int32 limits, " +
-		"timeouts, pings, errors, unknown functions, blockers + requests that expire in the queue, handlers 4x over the handle timeout); every written " +
+		"timeouts, pings, errors, unknown functions, blockers + requests that expire in the queue, handlers 4x over the handle timeout); per configuration " +
+		"also TCP connections whose pipelined byte stream is written in segments with 5-50 ms pauses (one cut per request boundary at the offsets -3..+3 in turn, random cuts, " +
+		"request boundaries 1-3 bytes around the multiples of the 4096-byte read buffer written in one piece and cut there, 64 KiB-1 MiB bodies followed by a header cut 1-3 bytes in, iTimeout 1 ms); every written " +
 		"packet is decoded with ReadFrom and attributed by id; compared per request with the admissible outcomes of the Lean model (variant read from the tree) " +
 		"and judged by an independent oracle; non-trivial = distinct (configuration, transport, scenario, version, packet type, dispatcher behaviour, outcome)"
 	if err := res.Write(o.Out); err != nil {
